@@ -342,6 +342,11 @@ func (ci *crdIpam) ConfigurePool(floatIPs []*FloatingIPPool) error {
 		glog.Infof("Configure pool done, %d fip pool, %d unallocated, %d allocated", len(ci.FloatingIPs),
 			len(ci.unallocatedFIPs), len(ci.allocatedFIPs))
 	}()
+	for i := range floatIPs {
+		if floatIPs[i] == nil {
+			return fmt.Errorf("floating ip config entry %d is null", i)
+		}
+	}
 	sort.Sort(FloatingIPSlice(floatIPs))
 	// hold the cache lock while listing the store: an allocation or release finishing between the list and the
 	// replacement of the caches would be lost from memory otherwise
